@@ -13,7 +13,7 @@ pub fn def() -> PropDef {
         predicate,
         nontrivial,
         functional: true,
-        rule: "programs of depth <= 10 in which every leaf is a tagged logging host call t(n) and every call shape occurs (global and receiver style, 0-4 arguments, host and built-in functions, nested in operators, list/map literals, index, conditional and map/filter/all/exists macros); the ordered host-call log must equal the model's and that of an independent left-to-right reference interpreter; plus nested int(int(...)) / f(f(...)) chains to depth 40 whose call count must stay linear; non-trivial = at least two logged calls; distinct = distinct source text",
+        rule: "programs of depth <= 10 in which every leaf is a tagged logging host call t(n) and every call shape occurs (global and receiver style, 0-4 arguments, host and built-in functions, nested in the strict operators (+ - * == != < <= > >=, in over lists and maps, index), && / || / ?:, list/map literals, conversion chains and map/filter/all/exists macros; receiver-style calls of functions without a receiver parameter; every arity 0-5 against every signature); the ordered host-call log must equal the model's and that of an independent left-to-right reference interpreter; plus nested int(int(...)) / f(f(...)) chains to depth 40 whose call count must stay linear; non-trivial = at least two logged calls; distinct = distinct source text",
         post: super::no_post,
         exhaustive_note: "random sample plus the fixed call-shape catalogue",
     }
@@ -35,6 +35,12 @@ pub enum N {
     AllMacro(Vec<N>, Box<N>),   // ([..].all(x, t(x) + body > -1000000) ? 1 : 0)
     Contains(Vec<N>, Box<N>),   // ([..].contains(e) ? 1 : 0)
     Conv(u8, Box<N>),           // a chain of built-in conversions through other types, value unchanged
+    Bin(u8, Box<N>, Box<N>),    // a strict binary operator: - * == != < <= > >= (comparisons as 0 / 1)
+    In(Box<N>, Vec<N>),         // (x in [..] ? 1 : 0): the element first, then the container
+    InMap(Box<N>, Vec<(N, N)>), // (x in {k: v, ..} ? 1 : 0)
+    And(Box<N>, Box<N>),        // ((a != 0) && (b != 0) ? 1 : 0): b only if a is non-zero
+    Or(Box<N>, Box<N>),         // ((a != 0) || (b != 0) ? 1 : 0): b only if a is zero
+    PosMethod(usize, Box<N>, Vec<N>), // recv.hK(args): hK takes K positional parameters and no receiver
 }
 
 fn args_src(a: &[N]) -> String {
@@ -56,6 +62,24 @@ impl N {
             N::MapMacro(a, b) => format!("size([{}].map(x, t(x) + {}))", args_src(a), b.render()),
             N::AllMacro(a, b) => format!("([{}].all(x, t(x) + {} > -1000000) ? 1 : 0)", args_src(a), b.render()),
             N::Contains(a, e) => format!("([{}].contains({}) ? 1 : 0)", args_src(a), e.render()),
+            N::Bin(op, a, b) => {
+                let (x, y) = (a.render(), b.render());
+                match op % 8 {
+                    0 => format!("({x} - {y})"),
+                    1 => format!("(({x} * {y}) % 1000)"),
+                    2 => format!("({x} == {y} ? 1 : 0)"),
+                    3 => format!("({x} != {y} ? 1 : 0)"),
+                    4 => format!("({x} < {y} ? 1 : 0)"),
+                    5 => format!("({x} <= {y} ? 1 : 0)"),
+                    6 => format!("({x} > {y} ? 1 : 0)"),
+                    _ => format!("({x} >= {y} ? 1 : 0)"),
+                }
+            }
+            N::In(x, a) => format!("({} in [{}] ? 1 : 0)", x.render(), args_src(a)),
+            N::InMap(x, es) => format!("({} in {{{}}} ? 1 : 0)", x.render(), es.iter().map(|(k, v)| format!("{}: {}", k.render(), v.render())).collect::<Vec<_>>().join(", ")),
+            N::And(a, b) => format!("(({} != 0) && ({} != 0) ? 1 : 0)", a.render(), b.render()),
+            N::Or(a, b) => format!("(({} != 0) || ({} != 0) ? 1 : 0)", a.render(), b.render()),
+            N::PosMethod(k, r, a) => format!("{}.h{k}({})", r.render(), args_src(a)),
             N::Conv(k, e) => match k % 8 {
                 0 => format!("int(double({}))", e.render()),
                 1 => format!("int(string({}))", e.render()),
@@ -142,6 +166,56 @@ impl N {
                 let x = e.eval(log);
                 vs.contains(&x) as i64
             }
+            N::Bin(op, a, b) => {
+                let x = a.eval(log);
+                let y = b.eval(log);
+                match op % 8 {
+                    0 => x - y,
+                    1 => (x * y) % 1000,
+                    2 => (x == y) as i64,
+                    3 => (x != y) as i64,
+                    4 => (x < y) as i64,
+                    5 => (x <= y) as i64,
+                    6 => (x > y) as i64,
+                    _ => (x >= y) as i64,
+                }
+            }
+            N::In(x, a) => {
+                let v = x.eval(log);
+                let vs: Vec<i64> = a.iter().map(|e| e.eval(log)).collect();
+                vs.contains(&v) as i64
+            }
+            N::InMap(x, es) => {
+                let v = x.eval(log);
+                let mut keys = vec![];
+                for (k, e) in es {
+                    keys.push(k.eval(log));
+                    e.eval(log);
+                }
+                keys.contains(&v) as i64
+            }
+            N::And(a, b) => {
+                if a.eval(log) == 0 {
+                    0
+                } else {
+                    (b.eval(log) != 0) as i64
+                }
+            }
+            N::Or(a, b) => {
+                if a.eval(log) != 0 {
+                    1
+                } else {
+                    (b.eval(log) != 0) as i64
+                }
+            }
+            N::PosMethod(k, r, a) => {
+                // the receiver is evaluated (once, first) although hK has no receiver parameter
+                let _ = r.eval(log);
+                let vs: Vec<i64> = a.iter().map(|x| x.eval(log)).collect();
+                let name = crate::sx::hex(format!("h{k}").as_bytes());
+                log.push(format!("({name}{})", vs.iter().map(|v| format!(" {}", int(*v))).collect::<String>()));
+                *k as i64
+            }
             N::Conv(k, e) => {
                 let v = e.eval(log);
                 if k % 8 == 6 {
@@ -181,7 +255,32 @@ fn tree(rng: &mut Rng, depth: u32, tag: &mut i64) -> N {
     }
     let d = depth - 1;
     let mut kids = |rng: &mut Rng, n: usize, tag: &mut i64| -> Vec<N> { (0..n).map(|_| { let dd = if rng.chance(1, 2) { d } else { d.min(1) }; tree(rng, dd, tag) }).collect() };
-    match rng.below(16) {
+    match rng.below(22) {
+        16 | 17 => {
+            let a = tree(rng, d, tag);
+            let b = tree(rng, d, tag);
+            N::Bin(rng.below(8) as u8, Box::new(a), Box::new(b))
+        }
+        18 => {
+            let x = tree(rng, d, tag);
+            let n = rng.below(4) as usize;
+            N::In(Box::new(x), kids(rng, n, tag))
+        }
+        19 => {
+            let x = tree(rng, d, tag);
+            let n = rng.below(3) as usize;
+            N::InMap(Box::new(x), (0..n).map(|_| (leaf(tag), tree(rng, d.min(1), tag))).collect())
+        }
+        20 => {
+            let a = tree(rng, d, tag);
+            let b = tree(rng, d, tag);
+            if rng.chance(1, 2) { N::And(Box::new(a), Box::new(b)) } else { N::Or(Box::new(a), Box::new(b)) }
+        }
+        21 => {
+            let k = rng.below(4) as usize;
+            let r = tree(rng, d, tag);
+            N::PosMethod(k, Box::new(r), kids(rng, k, tag))
+        }
         14 | 15 => {
             let e = tree(rng, d, tag);
             N::Conv(rng.below(8) as u8, Box::new(e))
@@ -292,6 +391,19 @@ pub fn generate(tier: Tier, rng: &mut Rng) -> Vec<Case> {
     push("ta(t(1), t(2))".into(), Some((vec![t(1), t(2), ta(1, &[1, 2])], 7)), usize::MAX, vec!["this-args", "global-style"], &mut out);
     push("ta(t(1), t(2), t(3))".into(), Some((vec![t(1), t(2), t(3), ta(1, &[1, 2, 3])], 7)), usize::MAX, vec!["this-args", "global-style"], &mut out);
     push("h1(ta(t(1), t(2)))".into(), Some((vec![t(1), t(2), ta(1, &[1, 2]), format!("({} (int 7))", crate::sx::hex(b"h1"))], 1)), usize::MAX, vec!["this-args", "global-style"], &mut out);
+    // calls with too few / too many arguments in both styles: what was evaluated before the error
+    // (or the surplus that is ignored) is evaluated once, in source order — the model decides
+    for k in 0..=4usize {
+        for n in 0..=5usize {
+            let args: Vec<String> = (0..n).map(|i| format!("t({})", i + 2)).collect();
+            push(format!("t(1).h{k}({})", args.join(", ")), None, usize::MAX, vec!["arity-mismatch"], &mut out);
+            push(format!("h{k}({})", args.join(", ")), None, usize::MAX, vec!["arity-mismatch"], &mut out);
+            if k <= 2 {
+                push(format!("t(1).m{k}({})", args.join(", ")), None, usize::MAX, vec!["arity-mismatch"], &mut out);
+                push(format!("m{k}({})", args.join(", ")), None, usize::MAX, vec!["arity-mismatch"], &mut out);
+            }
+        }
+    }
     // nested chains: the number of host calls must be linear in the depth (never exponential)
     for depth in [1usize, 2, 3, 5, 8, 13, 21, 30, 40] {
         let mut s = "t(1)".to_string();
